@@ -1495,6 +1495,46 @@ func ruleGRDwriteback(w *World, r *Report) {
 			}
 		}
 	}
+	// a map of POINTERS to structs hands out the stored struct itself: a field assigned through the pointer needs no
+	// store-back (the shape the code takes if the entries are changed to pointers — still one instance of the question)
+	for _, top := range w.pkgSSAFuncs("pkg/engine") {
+		if top.Parent() != nil {
+			continue
+		}
+		k := 0
+		for _, fn := range append([]*ssa.Function{top}, closuresOf(top)...) {
+			for _, b := range fn.Blocks {
+				for _, in := range b.Instrs {
+					st, ok := in.(*ssa.Store)
+					if !ok {
+						continue
+					}
+					fa, ok := st.Addr.(*ssa.FieldAddr)
+					if !ok {
+						continue
+					}
+					for _, rt := range append(valueRoots(fa.X), fa.X) {
+						if ex, ok := rt.(*ssa.Extract); ok {
+							rt = ex.Tuple
+						}
+						lk, ok := rt.(*ssa.Lookup)
+						if !ok {
+							continue
+						}
+						if mt, isMap := lk.X.Type().Underlying().(*types.Map); isMap {
+							if pt, isPtr := mt.Elem().Underlying().(*types.Pointer); isPtr {
+								if _, isStruct := pt.Elem().Underlying().(*types.Struct); isStruct {
+									n++
+									k++
+									r.Ok("GRD-writeback", fmt.Sprintf("%s:entry-by-pointer#%d:modified-in-place", fnKey(top), k), w.Pos(st.Pos()), "the map holds pointers: the assignment changes the stored struct")
+								}
+							}
+						}
+					}
+				}
+			}
+		}
+	}
 	if n == 0 {
 		r.Und("GRD-writeback", "sites", "", "no struct read out of a map and modified in pkg/engine (analysis lost its anchors)")
 	}
@@ -1729,12 +1769,12 @@ func ruleGRDfrozenset(w *World, r *Report) {
 			}
 		}
 		var order []*use
-		for _, u := range sets {
-			if len(u.looks) > 0 && len(u.grows) > 0 {
+		for _, u := range sets { // every set this function consults (it may have been filled elsewhere)
+			if len(u.looks) > 0 {
 				order = append(order, u)
 			}
 		}
-		sort.Slice(order, func(i, j int) bool { return order[i].grows[0].Pos() < order[j].grows[0].Pos() })
+		sort.Slice(order, func(i, j int) bool { return order[i].looks[0].Pos() < order[j].looks[0].Pos() })
 		for _, u := range order {
 			n++
 			bad := false
@@ -1765,7 +1805,7 @@ func ruleGRDfrozenset(w *World, r *Report) {
 					h = outer
 				}
 			}
-			r.Cond(!bad, "GRD-frozenset", fmt.Sprintf("%s:set#%d:complete-before-it-is-consulted", fnKey(f), n), w.Pos(u.grows[0].Pos()), "no loop both looks the set up and adds to it", fnKey(f)+" adds to the set of nodes it is about to remove inside the very scan that looks links up in that set: a node deleted after the collection phase is picked up when the scan reaches it, but the live nodes with smaller ids were already checked against the set without it — they are not re-linked, the node is freed, their links dangle and the part of the base layer behind them can no longer be reached from the entry point", w.witness(wit)...)
+			r.Cond(!bad, "GRD-frozenset", fmt.Sprintf("%s:set#%d:complete-before-it-is-consulted", fnKey(f), n), w.Pos(u.looks[0].Pos()), "no loop both looks the set up and adds to it", fnKey(f)+" adds to the set of nodes it is about to remove inside the very scan that looks links up in that set: a node deleted after the collection phase is picked up when the scan reaches it, but the live nodes with smaller ids were already checked against the set without it — they are not re-linked, the node is freed, their links dangle and the part of the base layer behind them can no longer be reached from the entry point", w.witness(wit)...)
 		}
 	}
 	if n == 0 {
